@@ -29,14 +29,14 @@ CHECKS = {
     note=TB + "; the x86 back end is trusted not to turn the remaining arithmetic into secret-dependent branches; the result clause is decided on the -O0 IR; a loop body that branches on data is not handled by it (and is a violation of the first clause)"),
  "C10": dict(
     engine="derive",
-    technique="inter-procedural pointer-derivation and write-summary analysis: no store or writing callee effect reaches any operand of the 39 query functions; per-loop path enumeration with linear facts classifying budget exits (sa/scan.py)",
+    technique="inter-procedural pointer-derivation and write-summary analysis: no store or writing callee effect reaches any operand of the 39 query functions; per-loop path enumeration with linear facts classifying budget exits (sa/scan.py); sentinel-collision rule on position trackers (a tracker and the cursor it records start from the same value and 'found' is decided by comparing the tracker with that value)",
     category="other",
     text="Decides, for all operand contents and sizes, the clause 'query functions never modify their operands': every pointer derived from an operand parameter (through casts, arithmetic, phi, libc/library functions that return interior pointers) is followed into every callee; any store or writing effect is a violation. Also decided (scan completeness): in the 36 budgeted scan loops of these functions (a counter from a length argument decreasing by a constant, a cursor advancing by a constant) every exit whose guards bound the counter leaves the loop only after all `budget` elements were examined - a pre-decremented or `> 1` guard that leaves the last element untried is reported. The difference a comparison function stores through its result parameter is not truncated to the width of the compared elements. Which exit yields which answer (equality with strcmp/strstr/strspn/...) is value-level and is not decided.",
     design_ref="DESIGN.md §4 C10",
     note=TB + "; only the operands-unmodified clause is claimed; out-of-bounds reads of these functions belong to C02"),
  "C13": dict(
     engine="formula",
-    technique="decision-table extraction: the six loop-free registration/invocation functions are interpreted over abstract handler values {NULL, symbols standing for every other handler, the default handler} and compared row by row with the reference model; storage-class and who-writes facts from the IR",
+    technique="decision-table extraction: the six loop-free registration/invocation functions are interpreted over abstract handler values {NULL, symbols standing for every other handler, the default handler} and compared row by row with the reference model; storage-class and who-writes facts from the IR; who-reports-through-which-dispatch rule (no function calls both the string and the memory dispatch, directly or through the units' error helpers)",
     category="proof",
     text="The functions touch handler values only by copies and null tests (enforced: anything else is 'not modelled'), so their behaviour is a finite decision table; all 162 rows equal the model (a function that reads writable state other than the two registrations is reported: the handler invoked must depend on the registrations alone) (set returns the previous value of its own variable and stores arg-or-default; invoke calls exactly one handler: thread-local, else process-wide, else default, with unchanged arguments). With per-step equality the property over all histories and interleavings follows by induction; per-thread isolation is the thread_local storage class read from the IR.",
     design_ref="DESIGN.md §3.4, §4 C13",
@@ -71,7 +71,7 @@ CHECKS = {
     note=TB + "; decided assuming C01 (writes stay inside dest); value-level assumptions as for C05; 28 triaged known findings (early exits before dest is validated, uncleared source-size / format violations)"),
  "C03": dict(
     engine="pathflags",
-    technique="path-sensitive abstract interpretation with a 'NUL known in dest' typestate over all returns (success and error) of the 31 string producers; exemptions (null dest, zero/oversize dmax, zero-length request) from path facts",
+    technique="path-sensitive abstract interpretation with a 'NUL known in dest' typestate over all returns (success and error) of the 31 string producers; exemptions (null dest, zero/oversize dmax, zero-length request) from path facts; libc wide formatters modelled with two outcomes (result >= 0: terminated, result < 0: contents unspecified)",
     category="other",
     text="For all inputs and prior dest contents: every non-exempt return is reached only after a zero store / zeroing write of length >= 1 into dest, the edge on which the element just stored into (or scanned in) dest compared equal to zero, or a terminating libc routine, with no later write of this call into dest. Thorough adds the no-slack configuration. That the terminator lies inside [0, dmax) is C01's obligation on the same store.",
     design_ref="DESIGN.md §3.3, §4 C03",
@@ -92,7 +92,7 @@ CHECKS = {
     note=TB + "; truthfulness premise; unsigned wrap-around ignored; functions in tables/cap_reach.json are not analysed and not claimed"),
  "C02": dict(
     engine="capcheck",
-    technique="same relational abstract interpretation as C01 applied to every load and reading effect; facts must hold at the evaluation of the access (deref-before-counter loops fail); NUL-bounded libc readers on length-declared buffers are undischargeable by construction",
+    technique="same relational abstract interpretation as C01 applied to every load and reading effect; facts must hold at the evaluation of the access (deref-before-counter loops fail); NUL-bounded libc readers on length-declared buffers are undischargeable by construction; sibling cross-check of symmetric copy loops (a counter one copy steps and tests against an object-size limit while the other tests it unstepped)",
     category="other",
     text="Each load, memcpy source, libc reader and helper call carries the obligation that the read range lies inside the declared extent (dmax of dest, slen/n/len of a length-declared source, local arrays, constant tables), including lower bounds for backward scans. 304 of 444 obligations are discharged; 22 known findings; 118 obligations in listed reach-limited functions are not claimed. A nested call to a library function that never writes its dest (42 search/compare functions, from the write summaries) is a read obligation on the length handed down. A pointer without a declared length that the function measures with strnlen_s/wcsnlen_s gets the measured length (+ terminator) as its extent from there on; other pointer parameters without a declared length carry the lower-bound obligation only (nothing is read in front of the buffer; searcher results are interior pointers of their argument), that they are read only up to their terminator is not decided. Thorough: also the no-slack configuration.",
     design_ref="DESIGN.md §3.2, §4 C02",
@@ -120,7 +120,7 @@ CHECKS = {
     note=TB + "; 32-bit wchar_t configuration; three fix: commits in /repo (two crashes on out-of-range code points; second code point truncated to 16 bits before the composition-list comparison; reorder/compose/wcsfc_s did not reject out-of-range code points); one known finding (U+037E stored as the reserved value 0: not decomposed; the repair contradicts an expectation pinned in the unedited test suite)"),
  "C06": dict(
     engine="pathflags",
-    technique="path-sensitive abstract interpretation with a 'destination budget exhausted before a terminator was copied' flag over the 10 non-truncating copy/concatenate functions; plus (in C05) a checked precondition 'measured strlen(src) < dmax' where the result of a nested copy is ignored; terminator-position typestate for the pointer-returning functions; byte accounting of the memory primitives (linear-arithmetic loop summaries + interval chaining)",
+    technique="path-sensitive abstract interpretation with a 'destination budget exhausted before a terminator was copied' flag over the 10 non-truncating copy/concatenate functions; plus (in C05) a checked precondition 'measured strlen(src) < dmax' where the result of a nested copy is ignored; terminator-position typestate for the pointer-returning functions; byte accounting of the memory primitives (linear-arithmetic loop summaries + interval chaining); sibling cross-check of symmetric copy loops (budget counters identified by their start values)",
     category="other",
     text="Decides the clause 'if the complete result does not fit the non-truncating functions fail instead of storing a shortened result': on no path does a success return follow the edge on which the counter initialised from dmax reached zero while data had been written and no terminator copied; every function has such exhausted paths (the rule is not vacuous) and they reach error returns. Also decided: the pointer returned by stpcpy_s/stpncpy_s on every success path is the address of the terminating null (the typestate remembers where the terminator was stored or proven, followed through merge phis). Also decided, for every length and alignment: the seven word-unrolled mem_prim_* primitives write every byte of dest[0 .. len*size) exactly once, in one direction, each element from the same offset of src (byte accounting: linear forms with quotient/remainder ties, a per-iteration progress rule for each of the 17 loops including the 16-way unrolled switch bodies, path walk with summarised loops, interval chaining at the return; mem_prim_move's precondition len >= 1 is established at its call sites); and the length strerrorlen_s announces for each library message equals the length of that message (length table vs message table, all rows). Equality of the bytes stored by the string functions with strcpy/strcat/..., results produced inside libc, and returned counts are value-level and not decided.",
     design_ref="DESIGN.md §4 C06",
